@@ -22,6 +22,9 @@ CONSTANTS
   DevEncCheckIgnoresStrict = FALSE
   DevCasefoldOpaqueHashFails = TRUE
   DevDupFoldsPlainDir = FALSE
+  BSz = 2
+  SizeClasses = {"end"}
+  DevSizeLimitInclusive = FALSE
   DevInodeUninitWipes = FALSE
 INVARIANT ConsistentAfter
 CHECK_DEADLOCK FALSE
